@@ -1014,7 +1014,7 @@ func callBuiltin(caller *frame, callpos token.Pos, fn *ssa.Builtin, args []value
 		m := args[0].(*omap)
 		if m != nil {
 			if i.shared != nil {
-				i.shared.onMapWrite(caller, m, nil)
+				i.shared.onMapWrite(caller, m, nil, nil, nil)
 			}
 			m.delete(i, args[1])
 		}
